@@ -1,4 +1,190 @@
-/- driver stub (Conc): replaced by the owner of this model group -/
+/- driver for C12 (exe drv_conc).  One line = one query about one case:
+
+     <query> ws <0|1> jobs <n> {J <val> (D0 | D1 <val>) (P0|P1)}*n
+             actors <m> {ops <k> {op}*k}*m sched <len> <actor>*len
+     op    := project | init <val> | set <val> S<hexkey> <val> | get <val> | len
+     query := trace   every step of the schedule:  actor|kind|path[|path2]|result[|payload] ;…
+            | final   the workspace tree afterwards: path=D / path=F:<content>, sorted ;…
+            | exits   per actor: ok|exc:<why> then the values handed back (doc:<val> / count:<n>)
+
+   State points and document values are `JVal`s, the job id is `calcId` (own MD5). -/
+import Signac.Json
+import Signac.Md5
 import Signac.Wire
-open Signac
-def main : IO Unit := driverLoop (fun _ => "bad-op")
+import Signac.Extracted
+import Signac.Concurrency
+open Signac Signac.Conc
+
+abbrev S := Sys JVal JVal
+
+def joinWith (sep : String) (xs : List String) : String := sep.intercalate xs
+
+def insertStr (x : String) : List String → List String
+  | [] => [x]
+  | y :: r => if x < y then x :: y :: r else y :: insertStr x r
+
+def sortStrs (xs : List String) : List String := xs.foldr insertStr []
+
+def wireC (v : JVal) : String := joinWith "," (wireVal v)
+
+def kindFile : Kind → String
+  | .sp => Extracted.FN_STATE_POINT
+  | .doc => Extracted.FN_JOB_DOCUMENT
+
+def pathStr : Path → String
+  | .ws => "workspace"
+  | .jobdir i => "workspace/" ++ i
+  | .file i k => "workspace/" ++ i ++ "/" ++ kindFile k
+  | .tmp i k _ => "workspace/" ++ i ++ "/._TMP_" ++ kindFile k
+
+def contentStr : Content JVal JVal → String
+  | .torn => "TORN"
+  | .spc v => wireC v
+  | .docc d => wireC (.obj d)
+
+def errStr : Errno → String
+  | .enoent => "ENOENT"
+  | .eexist => "EEXIST"
+  | .eisdir => "EISDIR"
+  | .enotdir => "ENOTDIR"
+  | .ebadf => "EBADF"
+
+def resStr : Res JVal JVal → String
+  | .bool true => "T"
+  | .bool false => "F"
+  | .ok => "ok"
+  | .err e => errStr e
+  | .data c => contentStr c
+  | .names l => "[" ++ joinWith "," (sortStrs l) ++ "]"
+
+def stepStr (a : Nat) (ins : Instr JVal JVal) (r : Res JVal JVal) : String :=
+  let body := match ins with
+    | .isdir p => ["isdir", pathStr p, resStr r]
+    | .isfile p => ["isfile", pathStr p, resStr r]
+    | .pexists p => ["exists", pathStr p, resStr r]
+    | .mkdir p => ["mkdir", pathStr p, resStr r]
+    | .read p => ["read", pathStr p, resStr r]
+    | .openw p => ["openw", pathStr p, resStr r]
+    | .write p c => ["write", pathStr p, resStr r, contentStr c]
+    | .close p => ["close", pathStr p, resStr r]
+    | .rename p q => ["rename", pathStr p, pathStr q, resStr r]
+    | .listdir p => ["listdir", pathStr p, resStr r]
+  joinWith "|" (toString a :: body)
+
+def nodeStr : Path × Node JVal JVal → String
+  | (p, .dir) => pathStr p ++ "=D"
+  | (p, .file c) => pathStr p ++ "=F:" ++ contentStr c
+
+def obsStr : Obs JVal JVal → String
+  | .doc d => "doc:" ++ wireC (.obj d)
+  | .count n => "count:" ++ toString n
+
+def exitStr (st : AState JVal JVal) : String :=
+  let head := match st.failed with
+    | none => if st.script.isEmpty then "ok" else "unfinished"
+    | some w => "exc:" ++ w
+  joinWith "/" (head :: st.out.reverse.map obsStr)
+
+/-! parsing -/
+
+def parseJobs : Nat → List String → FS JVal JVal → Option (FS JVal JVal × List String)
+  | 0, ts, fs => some (fs, ts)
+  | n+1, "J" :: ts, fs => do
+    let (v, ts) ← parseValue ts
+    let i := calcId v
+    let fs := fs.set (.jobdir i) .dir
+    let (fs, ts) ← match ts with
+      | "D0" :: ts => some (fs, ts)
+      | "D1" :: ts => match parseValue ts with
+        | some (.obj d, ts) => some (fs.set (.file i .doc) (.file (.docc d)), ts)
+        | _ => none
+      | _ => none
+    match ts with
+    | "P0" :: ts => parseJobs n ts fs
+    | "P1" :: ts => parseJobs n ts (fs.set (.file i .sp) (.file (.spc v)))
+    | _ => none
+  | _, _, _ => none
+
+def parseOps : Nat → List String → Option (List (Op JVal JVal) × List String)
+  | 0, ts => some ([], ts)
+  | n+1, "project" :: ts => do
+    let (ops, ts) ← parseOps n ts
+    pure (.project :: ops, ts)
+  | n+1, "len" :: ts => do
+    let (ops, ts) ← parseOps n ts
+    pure (.len :: ops, ts)
+  | n+1, "init" :: ts => do
+    let (v, ts) ← parseValue ts
+    let (ops, ts) ← parseOps n ts
+    pure (.init v :: ops, ts)
+  | n+1, "get" :: ts => do
+    let (v, ts) ← parseValue ts
+    let (ops, ts) ← parseOps n ts
+    pure (.docGet v :: ops, ts)
+  | n+1, "set" :: ts => do
+    let (v, ts) ← parseValue ts
+    match ts with
+    | k :: ts =>
+      let key ← match k.toList with
+        | 'S' :: hx => unhex (String.ofList hx)
+        | _ => none
+      let (x, ts) ← parseValue ts
+      let (ops, ts) ← parseOps n ts
+      pure (.docSet v key x :: ops, ts)
+    | [] => none
+  | _, _ => none
+
+def parseActors : Nat → List String → Option (List (AState JVal JVal) × List String)
+  | 0, ts => some ([], ts)
+  | n+1, "ops" :: k :: ts => do
+    let k ← k.toNat?
+    let (ops, ts) ← parseOps k ts
+    let (rest, ts) ← parseActors n ts
+    pure (AState.start ops :: rest, ts)
+  | _, _ => none
+
+def parseNats : Nat → List String → Option (List Nat × List String)
+  | 0, ts => some ([], ts)
+  | n+1, t :: ts => do
+    let x ← t.toNat?
+    let (xs, ts) ← parseNats n ts
+    pure (x :: xs, ts)
+  | _, _ => none
+
+def parseCase (ts : List String) : Option (S × List Nat) :=
+  match ts with
+  | "ws" :: w :: "jobs" :: n :: ts => do
+    let n ← n.toNat?
+    let fs0 : FS JVal JVal ← match w with
+      | "1" => some (FS.set [] .ws .dir)
+      | "0" => if n = 0 then some [] else none
+      | _ => none
+    let (fs, ts) ← parseJobs n ts fs0
+    match ts with
+    | "actors" :: m :: ts => do
+      let m ← m.toNat?
+      let (actors, ts) ← parseActors m ts
+      match ts with
+      | "sched" :: l :: ts => do
+        let l ← l.toNat?
+        let (sched, ts) ← parseNats l ts
+        if ts.isEmpty then pure ({ fs := fs, actors := actors }, sched) else none
+      | _ => none
+    | _ => none
+  | _ => none
+
+def stepConc (line : String) : String :=
+  match tokens line with
+  | q :: ts =>
+    if q = "trace" ∨ q = "final" ∨ q = "exits" then
+      match parseCase ts with
+      | none => "bad-value"
+      | some (s, sched) =>
+        let (tr, s') := runTrace calcId s sched
+        if q = "trace" then joinWith ";" (tr.map (fun (a, ins, r) => stepStr a ins r))
+        else if q = "final" then joinWith ";" (sortStrs (s'.fs.map nodeStr))
+        else joinWith ";" (s'.actors.map exitStr)
+    else "bad-op"
+  | [] => "bad-op"
+
+def main : IO Unit := driverLoop stepConc
